@@ -34,6 +34,8 @@ type Prophet struct {
 	peerPredictabilities map[bpv7.EndpointID]map[bpv7.EndpointID]float64
 	// dataMutex is a RW-mutex which protects change operations to the algorithm's metadata
 	dataMutex sync.RWMutex
+	// failureMutex serialises ReportFailure, which is called from one goroutine per peer
+	failureMutex sync.Mutex
 	// config contains the values for prophet constants
 	config ProphetConfig
 }
@@ -382,6 +384,11 @@ func (prophet *Prophet) SenderForBundle(bp BundleDescriptor) (sender []cla.Conve
 }
 
 func (prophet *Prophet) ReportFailure(bp BundleDescriptor, sender cla.ConvergenceSender) {
+	// The sent list is read, changed and written back: two concurrent reports must not interleave,
+	// or one of the failed peers stays in the list and is never tried again.
+	prophet.failureMutex.Lock()
+	defer prophet.failureMutex.Unlock()
+
 	bundleItem, err := prophet.c.store.QueryId(bp.Id)
 	if err != nil {
 		log.WithFields(log.Fields{
